@@ -5,6 +5,8 @@ seeds = [
  ("shared", "@kernel void k ( const int N , @restrict float * a , const float * b ) { @max_inner_dims ( 4 ) for ( int o = 0 ; o < N ; ++ o ; @outer ) { @shared float s [ 4 ] ; @exclusive int x ; for ( int i = 0 ; i < 4 ; ++ i ; @inner ) { x = i ; s [ i ] = b [ o * 4 + i ] ; } @barrier ; for ( int i = 0 ; i < 4 ; ++ i ; @inner ) { @atomic a [ o ] += s [ x ] ; } } }"),
  ("cpp", "#define M 4 NL typedef struct { float x ; int y ; } P ; float f ( const float x ) { return x * 2.0f + M ; } @kernel void k ( const int N , float * a , const P * p ) { for ( int o = 0 ; o < N ; o += M ; @outer ) { for ( int i = o ; i < o + M ; ++ i ; @inner ) { if ( i < N && p [ i ] . y != 0 ) { a [ i ] = f ( p [ i ] . x ) ; } else { a [ i ] = ( i % 2 == 0 ) ? 1.0f : -1.0f ; } } } }"),
  ("flow", "@kernel void k ( const int N , int * a ) { for ( int o = 0 ; o < N ; ++ o ; @outer ) { for ( int i = 0 ; i < 4 ; ++ i ; @inner ) { int j = 0 ; while ( j < 3 ) { if ( j == 1 ) { break ; } ++ j ; } for ( int m = 0 ; m < 2 ; ++ m ) { if ( m ) continue ; switch ( i ) { case 0 : a [ o ] = 'a' ; break ; default : a [ o ] = sizeof ( i ) ; } } } } }"),
+ ("variadic", '#define FIRST( x , ... ) x NL #define PICK( a , b , ... ) b NL #define FWD( ... ) PICK( __VA_ARGS__ ) NL #define ADD( a , b ) ( ( a ) + ( b ) ) NL #define TWICE( f , v ) f( f( v , 1 ) , 1 ) NL @kernel void k ( const int N , float * a ) { for ( int o = 0 ; o < N ; ++ o ; @outer ) { for ( int i = 0 ; i < 4 ; ++ i ; @inner ) { a [ FIRST( i ) ] = PICK( 1 , 2 ) ; a [ FIRST( i , o ) ] = PICK( 1 , 2 , 3 ) + FWD( 4 , 5 , 6 ) ; a [ o ] = ADD( FIRST( 1 , 2 , 3 ) , TWICE( ADD , i ) ) ; } } }'),
+ ("cond", '#define A 1 NL #define B A NL #define C ( B + 1 ) NL #if C > 1 NL #define D 4 NL #elif C == 1 NL #define D 2 NL #else NL #define D 1 NL #endif NL #undef A NL #define A 2 NL #ifdef D NL #ifndef E NL #define E D NL #endif NL #endif NL #if defined ( E ) && ! defined ( F ) NL #define F( x ) ( x * E ) NL #endif NL @kernel void k ( const int N , float * a ) { for ( int o = 0 ; o < N ; ++ o ; @outer ) { for ( int i = 0 ; i < E ; ++ i ; @inner ) { a [ i ] = A + B + C + F( o ) ; } } }'),
 ]
 def lit(t):
     if t == "NL": return '"\\n"'
